@@ -1,4 +1,4 @@
-"""./check <PROPERTY> [--tier quick|thorough] [--seed N]   |   ./check replay <path>   |   ./check selftest"""
+"""./check <PROPERTY> [--tier quick|thorough] [--seed N]   |   ./check replay <path>   |   ./check selftest   |   ./check extra"""
 import argparse
 import importlib
 import os
@@ -39,6 +39,9 @@ def main(argv=None):
         elif a.prop == 'replay':
             from . import replay
             rc = replay.main(a.path[0] if a.path else None)
+        elif a.prop == 'extra':
+            from .props import extra
+            rc = extra.run()
         else:
             pid = a.prop.upper()
             mod = importlib.import_module('vf.props.' + pid.lower())
